@@ -253,6 +253,9 @@ func (L *Loaded) loadContracts(extDir string) (*SpecDB, error) {
 			}
 		}
 	}
+	if err := db.checkIfaceConformance(galaxyPrefix+"/pkg/ipam/floatingip", "IPAM", "*crdIpam"); err != nil {
+		return nil, err
+	}
 	ext, _ := filepath.Glob(filepath.Join(extDir, "*.spec"))
 	sort.Strings(ext)
 	for _, m := range ext {
@@ -265,6 +268,44 @@ func (L *Loaded) loadContracts(extDir string) (*SpecDB, error) {
 		}
 	}
 	return db, nil
+}
+
+// checkIfaceConformance: a contract on an interface method `(I).M` that names an implementation
+// (`//@ implements (I).M` is implied by the naming convention below) is only an assumption at call
+// sites; to keep it honest every ensures clause of `(IPAM).M` must be, verbatim, an ensures clause
+// of `(*crdIpam).M` (which is proved), and every requires clause of `(*crdIpam).M` must be a
+// requires clause of `(IPAM).M` (so callers establish what the proof assumed).
+func (db *SpecDB) checkIfaceConformance(pkg, iface, impl string) error {
+	norm := func(s string) string { return strings.Join(strings.Fields(s), " ") }
+	for k, ic := range db.Contracts {
+		if ic.Pkg != pkg || !strings.HasPrefix(ic.Key, "("+iface+").") {
+			continue
+		}
+		m := strings.TrimPrefix(ic.Key, "("+iface+").")
+		cc, ok := db.Contracts[pkg+"::("+impl+")."+m]
+		if !ok {
+			return fmt.Errorf("%s: no contract on (%s).%s to conform to", k, impl, m)
+		}
+		have := map[string]bool{}
+		for _, e := range cc.Ensures {
+			have[norm(e.Src)] = true
+		}
+		for _, e := range ic.Ensures {
+			if !have[norm(e.Src)] {
+				return fmt.Errorf("%s: ensures clause is not a proved postcondition of (%s).%s: %s", k, impl, m, e.Src)
+			}
+		}
+		need := map[string]bool{}
+		for _, r := range ic.Requires {
+			need[norm(r.Src)] = true
+		}
+		for _, r := range cc.Requires {
+			if !need[norm(r.Src)] {
+				return fmt.Errorf("%s: precondition of (%s).%s is missing: %s", k, impl, m, r.Src)
+			}
+		}
+	}
+	return nil
 }
 
 // checkCommentOnly enforces that a contract file contains only a build constraint, a package
